@@ -63,6 +63,10 @@ ApplyMut(b, m) ==
       [] m.kind = "trunc" -> SubSeq(b, 1, Len(b) - m.n)
       [] m.kind = "extend" -> b \o [k \in 1..m.n |-> m.byte]
       [] m.kind = "setbytes" -> [k \in 1..Len(b) |-> IF k > m.off /\ k <= m.off + Len(m.bytes) THEN m.bytes[k - m.off] ELSE b[k]]
+      \* a canonical wrapper around the first n bytes of the nested message (n below one word: not even a type tag)
+      [] m.kind = "shortinner" ->
+            LET S == WordVal(b, 64) + 32 IN
+            SubSeq(b, 1, S - 32) \o EncBytes(SubSeq(b, S + 1, S + m.n))
 
 InnerStart(b) == WordVal(b, 64) + 32
 SmallWordOffsets(b) ==
@@ -73,6 +77,7 @@ Muts(b) ==
     LET S == InnerStart(b) IN
     {[kind |-> "flip", off |-> o, mask |-> mk] : o \in 0..(Len(b) - 1), mk \in {1, 128}}
     \cup {[kind |-> "trunc", n |-> k] : k \in 1..Len(b)}
+    \cup {[kind |-> "shortinner", n |-> k] : k \in {0, 1, 16, 31, 32, 33, 64, 160, 191}}
     \cup {[kind |-> "extend", n |-> k, byte |-> y] : k \in 1..33, y \in {0, 255}}
     \cup {[kind |-> "setbytes", off |-> o, bytes |-> Word(WordVal(b, o) + d)] :
             o \in SmallWordOffsets(b), d \in {1, 32}}
